@@ -120,4 +120,13 @@ def diagTexts (d : Diag) : List Str :=
     `utf8Len`): what `ast` reports as `col_offset` for a node preceded by this text on its line -/
 def byteLen (s : Str) : Nat := (s.map Char.utf8Size).sum
 
+/-- the lines stored by the LAST registration of `file` in a history of `add_file` calls
+    (`none`: never registered) -/
+def latest : List SrcOp → Str → Option (List Str)
+  | [], _ => none
+  | op :: ops, file =>
+    match latest ops file with
+    | some ls => some ls
+    | none => if op.file = file then some op.stored else none
+
 end GuppyVerif.Render
